@@ -218,6 +218,40 @@ def classify_pairs(sc: IndexScope, comp: ast.ListComp, rule_enum: str, obs: List
     return None
 
 
+def _stable_site(ctx, f: FuncInfo) -> str:
+    """Identity of a function for the known-findings file: a public function is `path::name`; a private one (its name is an
+    implementation detail that a clean-up may change) is identified by the public functions of the package that reach it
+    (by name, through private functions only) - the construct is the same construct under any private name."""
+    last = f.name.split('.')[-1]
+    if not last.startswith('_') or last.startswith('__'):
+        return _fn(f)
+
+    def build(c):
+        funcs = [g for g in c.repo.all_functions() if not g.is_pyx]
+        refs = {}
+        for g in funcs:
+            names = {n.id for n in ast.walk(g.node) if isinstance(n, ast.Name)} | \
+                    {n.attr for n in ast.walk(g.node) if isinstance(n, ast.Attribute)}
+            refs[g.qual] = names
+        return funcs, refs
+    funcs, refs = ctx.get('stable-site-graph', build)
+    seen, work, public = {last}, [last], set()
+    while work:
+        nm = work.pop()
+        for g in funcs:
+            gl = g.name.split('.')[0]           # (a nested function belongs to the function that holds it)
+            if nm in refs[g.qual] and g.name.split('.')[-1] != nm:
+                if gl.startswith('_') and not gl.startswith('__'):
+                    if gl not in seen:
+                        seen.add(gl)
+                        work.append(gl)
+                else:
+                    public.add(gl)
+    if not public:
+        return _fn(f)
+    return f"{f.path}::<private, reached from {'+'.join(sorted(public))}>"
+
+
 def r14_2_index_kinds(ctx, rule: str = 'R14.2', rule_enum: str = 'R06.1', rule_size: str = 'R14.3') -> List[Ob]:
     wm = wrapper_model(ctx)
     obs: List[Ob] = []
@@ -231,6 +265,17 @@ def r14_2_index_kinds(ctx, rule: str = 'R14.2', rule_enum: str = 'R06.1', rule_s
                                         f.loc(), construct=_fn(f)))
             continue
         fn = _fn(f)
+        # a recursive helper at module level that receives the train list / the pair function / the keywords unchanged is the
+        # nested helper of this function with those names bound (see rules_reducer): its subscripts are this function's
+        try:
+            from .rules_reducer import _specialise_module_level_reducers
+            import dataclasses
+            ctx_names = tuple(a.arg for a in f.node.args.args) + ((f.node.args.kwarg.arg,) if f.node.args.kwarg else ())
+            node2 = _specialise_module_level_reducers(ctx.repo, f, ctx_names)
+            if node2 is not f.node:
+                f = dataclasses.replace(f, node=node2)
+        except Exception:
+            pass
         # containers with a len(idx) extent
         for n in ast.walk(f.node):
             if isinstance(n, ast.Assign) and len(n.targets) == 1 and isinstance(n.targets[0], ast.Name):
@@ -505,7 +550,7 @@ def r14_2_index_kinds(ctx, rule: str = 'R14.2', rule_enum: str = 'R06.1', rule_s
                         n.args[0].id == sc.trains:
                     t = (f"{f.name}: the 'auto' threshold of a call with `{sc.idx}` is computed from the selected trains "
                          f"(so that it equals the call on the sub-list)")
-                    obs.append(violation(rule_size, t, f.loc(n), key=f"{fn}::auto-threshold-pools-all-trains",
+                    obs.append(violation(rule_size, t, f.loc(n), key=f"{_stable_site(ctx, f)}::auto-threshold-pools-all-trains",
                                          detail=f"default_thresh({sc.trains}) pools every train of the list, ignoring `{sc.idx}`"))
         # index validity assertion
         has_assert = any(isinstance(x, ast.Assert) and sc.idx in {y.id for y in ast.walk(x.test) if isinstance(y, ast.Name)}
